@@ -6,18 +6,20 @@
 #undef rtosc_message_ring_length
 #include "tl_view.h"
 
-// the trick must have taken effect, and the indices must still be atomics
+// the trick must have taken effect; whether the indices are still atomics is reported to the harness (a plain or volatile index
+// shared by the two threads is a data race by definition, which the check reports as a violation rather than a build failure)
 static_assert(std::atomic<long>::vp_hooked, "std::atomic was not replaced in the ThreadLink translation unit");
-static_assert(std::is_same<decltype(rtosc::internal_ringbuffer_t::write), std::atomic<signed long>>::value, "ring write index is no longer std::atomic<off_t>");
-static_assert(std::is_same<decltype(rtosc::internal_ringbuffer_t::read), std::atomic<signed long>>::value, "ring read index is no longer std::atomic<off_t>");
-static_assert(std::is_same<decltype(rtosc::internal_ringbuffer_t::read_lookahead), std::atomic<signed long>>::value, "ring lookahead index is no longer std::atomic<off_t>");
+template<class T> struct vp_raw { static const bool atomic = false; static long *p(const volatile T &x) { static_assert(sizeof(T) == sizeof(long), "ring index changed size"); return (long *)const_cast<T *>(&x); } };
+template<class U> struct vp_raw<std::atomic<U>> { static const bool atomic = true; static long *p(std::atomic<U> &x) { static_assert(sizeof(x.v) == sizeof(long), "ring index changed size"); return (long *)&x.v; } };
+#define VP_RAW(m) vp_raw<std::remove_volatile<decltype(rtosc::internal_ringbuffer_t::m)>::type>
 
 namespace vpsched {
 TlView view(rtosc::ThreadLink &t)
 {
     TlView v;
     v.ring = t.ring->buffer; v.size = t.ring->size;
-    v.write = &t.ring->write.v; v.read = &t.ring->read.v; v.lookahead = &t.ring->read_lookahead.v;
+    v.write = VP_RAW(write)::p(t.ring->write); v.read = VP_RAW(read)::p(t.ring->read); v.lookahead = VP_RAW(read_lookahead)::p(t.ring->read_lookahead);
+    v.indices_atomic = VP_RAW(write)::atomic && VP_RAW(read)::atomic && VP_RAW(read_lookahead)::atomic;
     v.write_buffer = t.write_buffer; v.read_buffer = t.read_buffer; v.max_msg = t.MaxMsg;
     return v;
 }
